@@ -1,7 +1,7 @@
 #!/venv/bin/python
 """Writes seeded/RESULTS.md from the meta.json files (no check is run here).
 Waves 1-3: outcome of tools/eval_all_seeds.py (recorded as quick_check_result).
-Waves 4-6: outcome of the evaluation at import time (tools/wave.sh / try_patch_wt.sh), recorded as first_run."""
+Waves 4-7: outcome of the evaluation at import time (tools/wave.sh / try_patch_wt.sh), recorded as first_run."""
 import glob, json, os
 base = os.path.join(os.path.dirname(os.path.dirname(os.path.realpath(__file__))), "seeded")
 rows = []
@@ -24,7 +24,7 @@ for d in sorted(glob.glob(base + "/C*/")):
 with open(base + "/RESULTS.md", "w") as fh:
     fh.write("# Seeded defects\n\n%d defects seeded by independent sub-agents (one property text and a scratch worktree each), every one confirmed "
              "with tools/confirm_seed.sh (demonstration passes on the clean tree, fails with the patch, repository test suite still passes).\n\n"
-             "Waves 1-3 were re-run against the quick checks with tools/eval_all_seeds.py on the tree with the session-2 fixes; waves 4-6 were run "
+             "Waves 1-3 were re-run against the quick checks with tools/eval_all_seeds.py on the tree with the session-2 fixes; waves 4-7 were run "
              "against the quick check of their property when they were imported (tools/wave.sh); where a seed was missed, the check was strengthened "
              "and the seed run again. `first run` says which.\n\n" % len(rows))
     fh.write("| seed | property | wave | final status | first run / strengthening | what the defect needs |\n|---|---|---|---|---|---|\n")
